@@ -96,6 +96,9 @@ class State:
         self.spec = False
         self.old = None     # snapshot for old()
         self.ghost = {}
+        self.mdom = None    # map heap (pyvc/maps.py): immutable z3 terms
+        self.mval = None
+        self.mnext = None
 
     def snapshot(self):
         s = State()
@@ -104,6 +107,7 @@ class State:
         s.lists = {k: v.copy() for k, v in self.lists.items()}
         s.dicts = {k: dict(v) for k, v in self.dicts.items()}
         s.ghost = dict(self.ghost)
+        s.mdom, s.mval, s.mnext = self.mdom, self.mval, self.mnext
         return s
 
 
@@ -404,6 +408,12 @@ class Interp:
             return VTuple([self.fresh(s, f"{label}_{i}") for i, s in enumerate(spec[1:])])
         if isinstance(spec, (list, tuple)) and spec and spec[0] == "list":
             return self.fresh_list(spec[1], label)
+        if not isinstance(spec, str):
+            fe = getattr(self.world, "fresh_ext", None)
+            r = fe(self, spec, label) if fe is not None else None
+            if r is None:
+                raise Unsupported(f"type spec {spec!r}")
+            return r
         if spec == "int":
             return self.fresh_int(label)
         if spec == "nat":
@@ -1005,6 +1015,11 @@ class Interp:
     def setattr(self, v, attr, val, node):
         if isinstance(v, VObj):
             self.check_frame(v, attr, node)
+            if isinstance(val, VDict) and not self.st.dicts[val.oid]:
+                fs = self.world.field_spec(v.cls, attr)
+                if isinstance(fs, tuple) and fs and fs[0] == "map":
+                    from . import maps
+                    val = maps.new_map(self, fs, [])
             self.st.heap[(v.oid, attr)] = val
             return
         if isinstance(v, VExc):
@@ -1479,6 +1494,24 @@ class Interp:
         if name == "ite":
             c, a, b2 = node.args
             return self.merge(self.truth(self.ev(c)), self.ev(a), self.ev(b2))
+        if name == "forall_int":
+            *vars_, body = node.args
+            bvs = []
+            saved = {}
+            for var in vars_:
+                bv = z3.Int(self.namer.fresh(var.id))
+                bvs.append(bv)
+                saved[var.id] = st.env.get(var.id)
+                st.env[var.id] = VInt(bv)
+            try:
+                p = self.truth(self.ev(body))
+            finally:
+                for k2, v2 in saved.items():
+                    if v2 is None:
+                        st.env.pop(k2, None)
+                    else:
+                        st.env[k2] = v2
+            return VBool(z3.ForAll(bvs, p))
         if name in ("forall", "exists"):
             var, lo, hi, body = node.args
             if not isinstance(var, ast.Name):
@@ -1519,6 +1552,9 @@ class Interp:
             if st.old is None:
                 return self.ev(e)
             saved = (st.heap, st.lists, st.dicts, st.old)
+            saved_maps = (st.mdom, st.mval, st.mnext)
+            if st.old.mdom is not None:
+                st.mdom, st.mval, st.mnext = st.old.mdom, st.old.mval, st.old.mnext
             saved_live = self.live_heap
             self.live_heap = st.heap
             st.heap, st.lists, st.dicts = st.old.heap, st.old.lists, st.old.dicts
@@ -1529,6 +1565,7 @@ class Interp:
                 return self.ev(e)
             finally:
                 st.heap, st.lists, st.dicts, st.old = saved
+                st.mdom, st.mval, st.mnext = saved_maps
                 st.env = saved_env
                 self.live_heap = saved_live
         if name in self.world.spec_funcs:
@@ -1570,6 +1607,16 @@ class Interp:
         self.guard(c, AssertionError, node, "SAFE-Assert")
 
     def ex_Assign(self, node):
+        if isinstance(node.value, ast.Dict) and len(node.targets) == 1 \
+                and isinstance(node.targets[0], ast.Subscript):
+            from .maps import VMap
+            tgt = node.targets[0]
+            obj = self.ev(tgt.value)
+            if isinstance(obj, VMap) and isinstance(obj.spec[1], tuple):
+                pairs = [(self.ev(k), self.ev(v)) for k, v in zip(node.value.keys, node.value.values)]
+                m = self.world.dict_literal(self, pairs, obj.spec[1])
+                self.setitem(obj, self.ev(tgt.slice), m, node)
+                return
         v = self.ev(node.value)
         for t in node.targets:
             self.assign(t, v, node)
